@@ -17,6 +17,7 @@ import (
 	"go/scanner"
 	"go/types"
 	"io"
+	"iter"
 	"os"
 	"os/exec"
 	"path/filepath"
@@ -63,6 +64,7 @@ type PPkg struct {
 	Types    []PType  `json:"types"`
 	Extra    []string `json:"extra,omitempty"`    // pre-existing extra files
 	Edit     int      `json:"edit,omitempty"`     // content variant of an extra source file (history steps change it)
+	At       bool     `json:"at,omitempty"`       // the package writes its tags with the marker `@` instead of `+`
 	Conflict bool     `json:"conflict,omitempty"` // with zdoc.go: a.go's package comment carries the key of the tag that stands in zdoc.go as well, with the value false — zdoc.go is the later file and wins
 	LineDir  bool     `json:"linedir,omitempty"`  // the extra .go files open with a //line directive ahead of the package clause (earlier outputs name a template, extra.go names the output of a generator in a neighbouring package)
 }
@@ -120,14 +122,18 @@ func tagMap(ts []PTag) map[string][]string {
 	return m
 }
 
+// tagMarker: `+` or `@` — both mark a tag line; a package writes all its tags with one of them (set per package while
+// its files are written)
+var tagMarker = "+"
+
 func tagLines(ts []PTag, indent string) string {
 	var b strings.Builder
 	for _, t := range ts {
 		for _, v := range t.V {
 			if v == "" {
-				b.WriteString(indent + "// +" + t.K + "\n")
+				b.WriteString(indent + "// " + tagMarker + t.K + "\n")
 			} else {
-				b.WriteString(indent + "// +" + t.K + "=" + v + "\n")
+				b.WriteString(indent + "// " + tagMarker + t.K + "=" + v + "\n")
 			}
 		}
 	}
@@ -259,10 +265,15 @@ func (s *PScn) materialise(dir string) error {
 			return err
 		}
 	}
+	defer func() { tagMarker = "+" }()
 	for i, p := range s.Pkgs {
 		pd := filepath.Join(dir, p.Dir)
 		if err := os.MkdirAll(pd, 0o755); err != nil {
 			return err
+		}
+		tagMarker = "+"
+		if p.At {
+			tagMarker = "@"
 		}
 		src := p.source()
 		if len(p.Imports) > 0 || (s.Nested && i == 0) {
@@ -455,6 +466,16 @@ func (g *recState) do(c gengo.Context, pkg, typ string, isAlias bool) error {
 		render(c, fmt.Sprintf("var _%s_%s_%d = 1\n", g.name, typ, n))
 	case 'x':
 		render(c, "func {\n")
+	case 'r':
+		// resolves the name of a foreign type through the file's namer (which registers an import) and renders nothing
+		c.Render(snippet.Func(func(ctx context.Context) iter.Seq[string] {
+			return func(yield func(string) bool) {
+				for range snippet.PkgExpose("encoding/json", "Marshal").Frag(ctx) {
+				}
+				for range snippet.PkgExpose(pipeMod+"/resolved/only", "T").Frag(ctx) {
+				}
+			}
+		}))
 	case 'm':
 		// value literals of maps with non-string keys: the text must not depend on map iteration order
 		bk := pkg + "/" + g.name
@@ -1031,6 +1052,9 @@ func (s *PScn) modelLine(o *POut) string {
 	for k, v := range s.Reacts {
 		if len(v) > 1 && v[1] == 'b' && len(s.Custom[k]) == 0 {
 			v = v[:1] + "n" + v[2:] // an empty custom body renders nothing
+		}
+		if len(v) > 1 && v[1] == 'r' {
+			v = v[:1] + "n" + v[2:] // resolving a name without rendering anything renders nothing
 		}
 		rEnc = append(rEnc, k+":"+strings.TrimSuffix(v, "-"))
 	}
